@@ -2,7 +2,9 @@
 //!
 //! S-inp.  Stores are produced by signing kit assets with a small generator of manifest definitions (plain on every kit
 //! format, compressed, rich assertion set with thumbnail resource and repeated labels, claim v1, parent + component
-//! ingredients, redaction of an ingredient assertion, update manifest, compressed with ingredients, sidecar) and taken out
+//! ingredients, redaction of an ingredient assertion, update manifest, compressed with ingredients, sidecar) PLUS the full
+//! product kind {create, edit, update} x active manifest {plain, compressed} x parent manifest {plain, compressed} x content
+//! {none, component ingredient, redaction, both} wherever the Builder accepts the combination (names "x-…"), and taken out
 //! of the signed asset with `jumbf_io::load_jumbf_from_memory`.
 //!   (a) produced stores:  store_to_jumbf(store_from_jumbf(b)) == b, byte for byte;
 //!   (b) EVERY single-byte mutant m of the mutation seeds: every offset x a value set in priority order {^0x01, ^0x80, '/', +1,
@@ -19,6 +21,8 @@
 //! Mutants caught (quick tier, patched scratch worktree, /verif/target-mut-C):
 //!   /verif/mutants/C18-compressed-flag-lost.diff from_jumbf no longer carries the "compressed" flag into the claim (brob stores re-serialise uncompressed)
 //!       -> "produced-store roundtrip differs seed=compressed-jpeg|compressed-ingredients-jpeg at=/jumb:header"
+//!   /tmp/seed-C18/OUT/patch.diff (independently seeded) update/c2md flag read from the OUTER box uuid, which is c2cm for compressed manifests
+//!       -> "produced-store roundtrip differs seed=x-update-act=z-par=p|z-none|redaction at=…" (only the factor-product seeds show it)
 //!   /verif/mutants/C18-update-flag-lost.diff     from_jumbf no longer marks update manifests (c2um boxes re-serialise as c2ma)
 //!       -> "produced-store roundtrip differs seed=update-jpeg at=/c2pa/<manifest>/jumd:payload"
 
@@ -163,6 +167,78 @@ fn seeds(thorough: bool) -> Vec<Seed> {
     {
         let (_, manifest) = sign_def(sctx(&[]), &plain_def, create(), png.mime, &png.data, |b| { b.set_no_embed(true); }, "sidecar-png");
         v.push(Seed { name: "sidecar-png".into(), store: manifest, mutate: false });
+    }
+    // ---- full product of the generator's factors (produced-store round trip only, never mutated) ----------------------
+    //   kind    in {create, edit, update}            (the manifest kinds the Builder can emit; c2md is only ever read)
+    //   active  in {plain, compressed}               (core.prefer_compress_manifests while signing this manifest)
+    //   parent  in {plain, compressed}               (how the manifest of the source asset was stored; edit/update only)
+    //   content in {none, component, redaction, component+redaction}
+    // Combinations the Builder refuses (e.g. a component ingredient in an update manifest, a redaction without a parent)
+    // are counted as "refused", not as failures; names start with "x-".
+    let rich_signed_z = {
+        let (signed, _) = sign_def(sctx(&[compress]), &rich_def, create(), jpeg.mime, &jpeg.data, |b| {
+            b.add_resource("thumb.jpg", Cursor::new(jpeg.data.clone())).unwrap_or_else(|e| ev::machinery(format!("C18 seed rich-z: add_resource: {e:?}")));
+        }, "rich-compressed-jpeg");
+        signed
+    };
+    let mut refused = 0usize;
+    let mut produced = 0usize;
+    for (kind, intent) in [("create", create()), ("edit", BuilderIntent::Edit), ("update", BuilderIntent::Update)] {
+        for act_z in [false, true] {
+            for par_z in [false, true] {
+                if kind == "create" && par_z {
+                    continue;
+                }
+                for content in ["none", "component", "redaction", "component+redaction"] {
+                    let src: &[u8] = if kind == "create" { &jpeg.data } else if par_z { &rich_signed_z } else { &rich_signed };
+                    let name = format!("x-{kind}-act={}-par={}-{content}", if act_z { "z" } else { "p" }, if kind == "create" { "none" } else if par_z { "z" } else { "p" });
+                    let mut def = format!(r#"{{"title":"{name}",{GEN}"#);
+                    if content.contains("redaction") {
+                        if kind == "create" {
+                            refused += 1;
+                            continue; // nothing to redact from
+                        }
+                        let parent = sdk::read(sdk::ctx(), jpeg.mime, src).unwrap_or_else(|e| ev::machinery(format!("C18 seed {name}: cannot read the parent: {e:?}")));
+                        let label = parent.active_label().unwrap_or_else(|| ev::machinery("C18 product seed: parent has no active manifest")).to_string();
+                        let uri = c2pa::verif_hooks::label::to_assertion_uri(&label, "stds.schema-org.CreativeWork");
+                        def.push_str(&format!(
+                            r#","redactions":["{uri}"],"assertions":[{{"label":"c2pa.actions.v2","data":{{"actions":[{{"action":"c2pa.redacted","reason":"c2pa.PII.present","parameters":{{"redacted":"{uri}"}}}}]}}}}]"#
+                        ));
+                    }
+                    def.push('}');
+                    let ctx = if act_z { sctx(&[compress]) } else { sctx(&[]) };
+                    let r: Result<Vec<u8>, String> = par::guard(|| -> Result<Vec<u8>, String> {
+                        let mut b = Builder::from_context(ctx).with_definition(def.as_str()).map_err(|e| format!("{e:?}"))?;
+                        b.set_intent(intent.clone());
+                        if content.contains("component") {
+                            b.add_ingredient_from_stream(r#"{"title":"component","relationship":"componentOf"}"#, "image/png", &mut Cursor::new(&png_signed)).map_err(|e| format!("{e:?}"))?;
+                        }
+                        let mut dst = Cursor::new(Vec::new());
+                        b.sign(signer().as_ref(), jpeg.mime, &mut Cursor::new(src), &mut dst).map_err(|e| format!("{e:?}"))?;
+                        Ok(dst.into_inner())
+                    })
+                    .unwrap_or_else(|p| Err(format!("panic {p}")));
+                    match r {
+                        Ok(signed) => {
+                            produced += 1;
+                            v.push(Seed { name, store: extract(jpeg.mime, &signed, "product"), mutate: false });
+                        }
+                        Err(e) => {
+                            refused += 1;
+                            if std::env::var("VERIF_DEBUG").is_ok() {
+                                eprintln!("C18 product seed {name} refused by the Builder: {e}");
+                            }
+                        }
+                    }
+                }
+            }
+        }
+    }
+    // the combinations this product exists for must really be there
+    for must in ["x-update-act=z-par=p-none", "x-update-act=z-par=z-none", "x-edit-act=z-par=z-component", "x-create-act=z-par=none-none", "x-update-act=p-par=z-none"] {
+        if !v.iter().any(|s| s.name == must) {
+            ev::machinery(format!("C18: product seed {must} could not be produced ({produced} produced, {refused} refused)"));
+        }
     }
     v
 }
@@ -369,8 +445,16 @@ pub fn run(run: &Run, replay: Option<&Value>) {
         walk(&s.store, 0, s.store.len(), "", &mut regions, 0);
         let manifests = regions.iter().filter(|r| r.what.ends_with("/<manifest>/jumb:header") || r.what.ends_with("/<manifest>/brob:header")).count();
         let compressed = regions.iter().any(|r| r.what.contains("brob"));
-        if s.name.contains("compressed") != compressed {
+        let named_compressed = if s.name.starts_with("x-") { s.name.contains("=z") } else { s.name.contains("compressed") };
+        if named_compressed != compressed {
             ev::machinery(format!("C18 seed {}: compressed={compressed}", s.name));
+        }
+        // kind of the active (last) manifest as the independent walker sees it: c2um = update manifest
+        if s.name.starts_with("x-update") || s.name == "update-jpeg" {
+            let n_update = s.store.windows(4).filter(|w| w == b"c2um").count();
+            if n_update == 0 && !s.name.contains("act=z") {
+                ev::machinery(format!("C18 seed {}: no update-manifest box (c2um) in the store", s.name));
+            }
         }
         run.sample(json!({"seed": s.name, "store_bytes": s.store.len(), "boxes": regions.len(), "compressed": compressed, "manifest_level_boxes": manifests, "mutated": s.mutate}));
     }
